@@ -3,7 +3,9 @@ import J5V.Compile.ShapeProofs
 import J5V.Compile.RefProofs
 import J5V.Compile.RefsPkg
 import J5V.Compile.SymProofs
+import J5V.Compile.FieldShapeProofs
 import J5V.Generated.CompileconstsFacts
+import J5V.Generated.BuildersFacts
 /-!
 # C02 — j5s compiles to exactly the protobuf contract the source declares
 
@@ -387,6 +389,94 @@ theorem C02_declared_types_link (b : Bundle) (name : Str) (p : Pkg) (l : Loaded)
           (qual (packageFromFilename (path ++ b!".proto")) x.1, kindSym x.2) ∈ g.lfile.syms :=
   declared_types_link b name p l fuel chain hf hl path imports elems decl hmem hpkg
 
+/-! ## cardinality, optionality, oneof wrapper, proto type -/
+
+/-- **Cardinality, optionality, oneof wrapper.** In the message emitted for a declared (or virtual)
+object / oneof whose conversion recorded no error, field `i` (virtual prepends first) is
+`repeated` exactly when the property is an array or a map; carries `proto3_optional` exactly when
+the property is marked explicitly optional (`?` / `optional = true`) — and then it is not
+required; is marked required (`(buf.validate.field).required`) whenever the property is `!`
+required; and is a member of the message's single protobuf `oneof` (index 0) exactly when the
+declaration is a j5s oneof — whose message has kind `oneof` (the wrapper: a message that holds one
+real `oneof type { … }` with ALL fields inside), an object's fields are in no oneof. -/
+theorem C02_field_shape (c : Ctx) (np : List Str) (isOneof : Bool) (virt : List Property)
+    (name : Str) (props : List Property) (nested : List Nested) (psm : Option Psm)
+    (h : (convDecl c np isOneof virt (.mk name props nested psm)).errs = 0) :
+    let m := declMsg c np isOneof virt name props nested psm
+    m.kind = (if isOneof then .oneof else .object) ∧
+    ∀ i (hi : i < (virt ++ props).length) (hf : i < m.fields.length),
+      m.fields[i].repeated = (virt ++ props)[i].schema.isRepeated ∧
+      m.fields[i].p3opt = (virt ++ props)[i].explicitlyOptional ∧
+      m.fields[i].oneof = (if isOneof then some 0 else none) ∧
+      ((virt ++ props)[i].required = true → m.fields[i].req = true) ∧
+      (m.fields[i].p3opt = true → m.fields[i].req = false) := by
+  intro m
+  have herr : (bProps c (np ++ [name]) isOneof 1 (virt ++ props)).eff.errs = 0 := by
+    rw [convDecl_errs] at h; omega
+  refine ⟨by simp [m, declMsg, mkMsg, MsgSkel.kind], ?_⟩
+  intro i hi hf
+  have hf' : i < (bProps c (np ++ [name]) isOneof 1 (virt ++ props)).flds.length := by
+    simpa [m, declMsg, mkMsg, MsgSkel.fields] using hf
+  have hget := bProps_get c (np ++ [name]) isOneof 1 (virt ++ props) herr i hi hf'
+  have := bProperty_shape c (np ++ [name]) isOneof (1 + i) _ _ hget
+  simpa [m, declMsg, mkMsg, MsgSkel.fields] using this
+
+/-- **Proto type of scalar fields.** A property of a scalar kind — string, bool, bytes, key, date,
+decimal, timestamp, any, integer, float (not an array, map, reference or inline type) — that is
+emitted at all is emitted non-repeated with exactly the type, type name and `(j5.ext.v1.field)`
+member `scalarField` lists for its kind; the table: string / key → `string`, bool → `bool`, bytes →
+`bytes`, integer:F → `int32 / int64 / uint32 / uint64` by format, date → message
+`.j5.types.date.v1.Date`, decimal → `.j5.types.decimal.v1.Decimal`, timestamp →
+`.google.protobuf.Timestamp`, any → `.j5.types.any.v1.Any`. -/
+theorem C02_field_scalar_type (c : Ctx) (np : List Str) (io : Bool) (number : Nat) (name : Str)
+    (req opt : Bool) (schema : Field) (b : BF) (r : FieldRes) (hs : scalarField schema = some b)
+    (hr : b.res = some r) (f : FieldSkel)
+    (h : (bProperty c np io number (.mk name req opt schema)).fld = some f) :
+    f.type = r.type ∧ f.typeName = r.typeName ∧ f.ext = r.ext ∧ f.repeated = false :=
+  bProperty_scalar_type c np io number name req opt schema b r hs hr f h
+
+theorem C02_scalar_type_table (rules : Rules) (lr : Bool) (ifmt : IntFmt) (kf : KeyFmt) (ek : EntKey) :
+    ((scalarField (.string rules lr)).bind (·.res)).map (fun r => (r.type, r.typeName)) = some (.string, []) ∧
+    ((scalarField (.bool rules lr)).bind (·.res)).map (fun r => (r.type, r.typeName)) = some (.bool, []) ∧
+    ((scalarField (.bytes rules)).bind (·.res)).map (fun r => (r.type, r.typeName)) = some (.bytes, []) ∧
+    ((scalarField (.key kf ek rules lr)).bind (·.res)).map (fun r => (r.type, r.typeName)) = some (.string, []) ∧
+    ((scalarField (.date rules lr)).bind (·.res)).map (fun r => (r.type, r.typeName)) =
+      some (.message, b!".j5.types.date.v1.Date") ∧
+    ((scalarField (.decimal rules lr)).bind (·.res)).map (fun r => (r.type, r.typeName)) =
+      some (.message, b!".j5.types.decimal.v1.Decimal") ∧
+    ((scalarField (.timestamp rules)).bind (·.res)).map (fun r => (r.type, r.typeName)) =
+      some (.message, b!".google.protobuf.Timestamp") ∧
+    ((scalarField .any).bind (·.res)).map (fun r => (r.type, r.typeName)) =
+      some (.message, b!".j5.types.any.v1.Any") ∧
+    (intRulesErr rules = false →
+      ((scalarField (.integer ifmt rules lr)).bind (·.res)).map (fun r => (r.type, r.typeName)) =
+        some (intType ifmt, [])) :=
+  scalar_type_table rules lr ifmt kf ek
+
+/-- **Maps.** A map property whose item type converts is emitted as a `repeated` message field of type
+`<CamelCase(snake(name))>Entry` with `(j5.ext.v1.field).map`, together with exactly one map-entry
+message of that name for the enclosing context: `key` = string, number 1; `value` = number 2 with
+the item's proto type, type name and extension member. -/
+theorem C02_map_entry (c : Ctx) (np : List Str) (io : Bool) (number : Nat) (name : Str) (req opt : Bool)
+    (items : Field) (mrules : Rules) (r : FieldRes)
+    (hr : (bField c np (toCamel name) items).res = some r) (f : FieldSkel)
+    (h : (bProperty c np io number (.mk name req opt (.map items mrules))).fld = some f) :
+    (bProperty c np io number (.mk name req opt (.map items mrules))).entries =
+        [mkEntry (mapName (toSnake name)) r] ∧
+      f.type = .message ∧ f.typeName = mapName (toSnake name) ∧ f.repeated = true ∧ f.ext = b!"map" ∧
+      (mkEntry (mapName (toSnake name)) r).kind = .mapentry ∧
+      (mkEntry (mapName (toSnake name)) r).fields.map (fun g => (g.name, g.number, g.type, g.typeName)) =
+        [(b!"key", 1, .string, []), (b!"value", 2, r.type, r.typeName)] := by
+  obtain ⟨h1, h2, h3, h4, h5⟩ := bProperty_map c np io number name req opt items mrules r hr f h
+  exact ⟨h1, h2, h3, h4, h5, rfl, rfl⟩
+
+/-- non-vacuity: a map of int64 values -/
+example : (bField { resolve := fun _ _ => none } [b!"Foo"] b!"Counts" (.integer .int64 [] false)).res =
+      some { type := .int64, ext := b!"integer" } ∧
+    ((bProperty { resolve := fun _ _ => none } [b!"Foo"] false 1
+      (.mk b!"counts" false false (.map (.integer .int64 [] false) []))).fld.map (·.typeName)) =
+      some b!"CountsEntry" := by decide
+
 /-! ## Non-vacuity -/
 
 /-- a two-package bundle: `bar.v1` refers to a type of `foo.v1` through the last-but-one segment
@@ -427,6 +517,18 @@ def exObj : ObjDecl :=
 def exCtx : Ctx := { resolve := resolveTypeNoImport ⟨[], b!"foo.v1"⟩ ⟨b!"foo.v1", [], []⟩ }
 
 example : (convDecl exCtx [] false [] exObj).errs = 0 := by decide
+
+/-- `C02_field_shape` on the example: required, explicitly optional, plain; none repeated, none in
+a oneof; and a oneof with an array member -/
+example :
+    ((declMsg exCtx [] false [] b!"Foo" exObj.props [] none).fields.map
+      fun f => (f.repeated, f.p3opt, f.req, f.oneof)) =
+      [(false, false, true, none), (false, true, false, none), (false, false, false, none)] ∧
+    (convDecl exCtx [] true [] (.mk b!"Pick" [.mk b!"tags" false false (.array (.string [] false) [])] [] none)).errs = 0 ∧
+    (declMsg exCtx [] true [] b!"Pick" [.mk b!"tags" false false (.array (.string [] false) [])] [] none).kind = .oneof ∧
+    ((declMsg exCtx [] true [] b!"Pick" [.mk b!"tags" false false (.array (.string [] false) [])] [] none).fields.map
+      fun f => (f.repeated, f.type, f.oneof)) = [(true, .string, some 0)] := by
+  decide
 
 example :
     ((declMsg exCtx [] false [] b!"Foo" exObj.props [] none).fields.map
@@ -512,6 +614,41 @@ theorem C02_src_suffixes :
     ("sourcewalk/service.go", "serviceBuilder.accept", "%sResponse") ∈ stringLiterals ∧
     ("sourcewalk/service.go", "serviceBuilder.accept", "Service") ∈ stringLiterals ∧
     ("sourcewalk/service.go", "serviceBuilder.accept", "google.api.HttpBody") ∈ stringLiterals := by
+  decide
+
+end J5V.Props.C02
+
+/-! ## Obligation over facts regenerated from the current source (`extract builders`)
+
+Every write to a descriptor list (`Dependency`, `MessageType`, `EnumType`, `Service`, `NestedType`,
+`Field`, `OneofDecl`, `Value`, `Method`) in the non-test files of internal/j5s/j5convert. The model
+appends in visit order everywhere (`FileB.apply`: `msgs := f.msgs ++ e.msgs` …; `bProps`: fields in
+declaration order; `enumValues`; `convService` / `acceptTopic`: methods in order): that is faithful
+only if every site has the form `X = append(X, one element)`. The exceptions are listed: the two
+fresh literals (the single `oneof` declaration of a oneof wrapper; key / value of a map entry) and
+the explicit zero enum value replacing the implicit one in place (`enumValues`' first branch). A
+prepend / insert / new site / re-sorted list changes the table and fails the obligation. -/
+namespace J5V.Props.C02
+open J5V.Generated.Builders
+
+theorem C02_src_append_order :
+    descriptorWrites =
+      [ ("builders.go", "fileContext.ensureImport", "fb.fdp.Dependency", "append-end"),
+        ("builders.go", "fileContext.ensureImport", "fb.fdp.Dependency", "call:sort.Strings"),
+        ("builders.go", "fileContext.addMessage", "fb.fdp.MessageType", "append-end"),
+        ("builders.go", "fileContext.addEnum", "fb.fdp.EnumType", "append-end"),
+        ("builders.go", "fileContext.addService", "fb.fdp.Service", "append-end"),
+        ("builders.go", "MessageBuilder.addMessage", "msg.descriptor.NestedType", "append-end"),
+        ("builders.go", "MessageBuilder.addEnum", "msg.descriptor.EnumType", "append-end"),
+        ("conversion.go", "conversionVisitor.visitTopicNode", "desc.Method", "append-end"),
+        ("conversion.go", "conversionVisitor.visitObjectNode", "message.descriptor.OneofDecl", "append-end"),
+        ("conversion.go", "conversionVisitor.visitObjectNode", "message.descriptor.Field", "append-end"),
+        ("conversion.go", "conversionVisitor.visitOneofNode", "message.descriptor.OneofDecl", "literal"),
+        ("conversion.go", "conversionVisitor.visitOneofNode", "message.descriptor.Field", "append-end"),
+        ("enum.go", "enumBuilder.addValue", "e.desc.Value", "other:e.desc.Value[0] = value"),
+        ("enum.go", "enumBuilder.addValue", "e.desc.Value", "append-end"),
+        ("fields.go", "buildProperty", "mb.descriptor.Field", "literal"),
+        ("service.go", "conversionVisitor.visitServiceMethodNode", "service.desc.Method", "append-end") ] := by
   decide
 
 end J5V.Props.C02
